@@ -8,6 +8,7 @@ From Coq Require Import ZArith List Bool Lia.
 Import ListNotations.
 Require Import SV.Common SV.C10.Listener SV.C10.Proc.
 Require Import SV.C09.Gen_EvTypes SV.C09.EvTypes SV.C09.EvTypesProofs SV.C09.Pool SV.C09.PoolProofs.
+Require Import SV.C09.Groups SV.C09.GroupsProofs.
 Open Scope Z_scope.
 
 (* isinstance on the generated hierarchy: the computable test used by the
@@ -31,8 +32,33 @@ Theorem c09_routing :
 Proof. exact routing_always. Qed.
 Print Assumptions c09_routing.
 
-(* the subscription table, the configured types, the buffer sizes and maxint
-   are those of the initial pools throughout *)
+(* Pools removed and added (Supervisor.remove_process_group / add_process_group):
+   a refused removal - some listener of the pool is not stopped - changes
+   nothing at all, in particular not the subscription table ... *)
+Theorem c09_refused_removal_identity :
+  forall w pi p e1,
+  nth_error (w_pools w) pi = Some p -> subscribed w pi = true -> all_stopped p = false ->
+  remove_group w pi e1 = (w, [ERefused pi]).
+Proof. exact refused_removal_identity. Qed.
+Print Assumptions c09_refused_removal_identity.
+
+(* ... and over every history of operations, removal attempts (refused or
+   accepted) and additions, an emitted event is offered to pool pi exactly once
+   iff pi is one of the process groups at that moment and is configured for the
+   event's class or a superclass: never to a removed pool, and still to a pool
+   whose removal was refused. *)
+Theorem c09_routing_groups :
+  forall h maxdig pools maxint gs ops e t pi p,
+  let w := fst (grun h maxdig (new_world pools maxint gs) ops) in
+  nth_error (w_pools w) pi = Some p ->
+  ev_lookup (w_events w) e = None ->
+  offered_count pi e (snd (emit w e t)) =
+  if subscribed w pi && existsb (fun T => subtype_b t T) (pl_subs p) then 1%nat else 0%nat.
+Proof. exact routing_groups. Qed.
+Print Assumptions c09_routing_groups.
+
+(* without removals/additions: the subscription table, the configured types, the
+   buffer sizes and maxint are those of the initial pools throughout *)
 Theorem c09_configuration_static :
   forall h maxdig pools maxint gs ops,
   static (fst (wrun h maxdig (new_world pools maxint gs) ops)) = static (new_world pools maxint gs).
